@@ -5,6 +5,7 @@
     * a capped `Vec::with_capacity` in the time-index `read_track`                  (fixes/C30.diff)
     * `data.len() - 14 < len` in `MemoriesTrack::deserialize` / `LogicMesh::deserialize`  (fixes/C22.diff),
       no `debug_assert!(probe.wal_pending == 0)` in `DoctorPlanner::compute`              (applied: 842ec3b),
+      `self.sequence.checked_add(1)` in `EmbeddedWal::append_entry`                        (fixes/C22.diff),
       (and `blob_reader_from_frame` pre-reads the payload, or `BlobReader` adds checked)   (fixes/C22.diff)
   With any of the original shapes the first theorem is false and the module fails to build; the
   crash characterisations and witnesses in MvProps/C22.lean hold for both shapes.
@@ -17,6 +18,7 @@ open Mv
 theorem repaired_flags :
     Gen.C39.READER_CHECKED_ARITH = true ∧ Gen.C22.MEMORIES_LEN_CHECKED = true ∧ Gen.C22.MESH_LEN_CHECKED = true ∧
     Gen.C22.DOCTOR_ASSERTS_NO_PENDING = false ∧ (Gen.C22.BLOB_OPEN_VERIFIES || Gen.C22.BLOB_CHECKED) = true ∧
+    Gen.C22.WAL_APPEND_SEQ_CHECKED = true ∧
     (match TimeIndex.PREALLOC_CAP with | some c => decide (c * 16 ≤ 2^63 - 1) | none => false) = true := by decide
 
 /-- **C22_total_sketch_reader** — `read_sketch_track` on any file, offset and length. -/
@@ -39,13 +41,18 @@ theorem C22_total_blob_seek (fileLen start len target : Nat) (ckOk : Bool) (hlen
     (blobOpenSeek fileLen start len target ckOk).Safe :=
   C22_total_blob _ _ repaired_flags.2.2.2.2.1 fileLen start len target ckOk hlen
 
+/-- **C22_total_wal_append** — `EmbeddedWal::append_entry` on any opened WAL state and sequence number. -/
+theorem C22_total_wal_append (ro : Bool) (size pending writeHead sequence payloadLen : Nat)
+    (hp : pending < 2^63) (hw : writeHead < 2^63) : (walAppend ro size pending writeHead sequence payloadLen).Safe :=
+  walAppend_safe repaired_flags.2.2.2.2.2.1 ro size pending writeHead sequence payloadLen hp hw
+
 /-- **C22_total_time_index** — `read_track` with the capped pre-allocation: no "capacity overflow"
     panic for any declared count, and no allocation abort as long as the allocator grants requests
     up to the cap (`allocOk` is the only assumption; 1 MiB for the cap of fixes/C30.diff). -/
 theorem C22_total_time_index (allocOk : Nat → Bool)
     (hmem : ∀ c, TimeIndex.PREALLOC_CAP = some c → ∀ n, n ≤ c * 16 → allocOk n = true)
     (file : Bytes) (offset length : Nat) : (timeIndexRead allocOk file offset length).Safe := by
-  have hf := repaired_flags.2.2.2.2.2
+  have hf := repaired_flags.2.2.2.2.2.2
   cases hcap : TimeIndex.PREALLOC_CAP with
   | none => rw [hcap] at hf; cases hf
   | some c =>
